@@ -160,7 +160,7 @@ def sched_property(out, info, tier, seed, pid, kinds, monitor, gen_opts=None, nc
     searched = 0
     if model is not None and monitor is not None and mismatches and not violations:
         base = [m['case'] for m in mismatches[:6]]
-        budget = 150 if tier == 'quick' else 1200
+        budget = float(os.environ.get('VERIF_SEARCH_BUDGET', 150 if tier == 'quick' else 1200))
         t1 = time.time(); srng = random.Random(seed * 31 + 5)
         while time.time() - t1 < budget and not violations and searched < 6000:
             c0 = base[searched % len(base)]
